@@ -192,22 +192,14 @@ pub fn gen_case(r: &mut Rng, out: &mut String) {
             }
             16..=17 => writeln!(out, "tappend t0{}", append_args(r, &c)).unwrap(),
             18 => {
-                let n = r.range(0, 16);
-                let mut s = String::new();
-                for _ in 0..n {
-                    write!(s, " {}", value64(r, &c)).unwrap();
-                }
+                let s = join_vals(&structured_seq(r, 16, P32, u64::MAX, &mut |r| value64(r, &c)));
                 writeln!(out, "textend t0{}", s).unwrap()
             }
             19 => {
                 if r.chance(1, 3) {
                     writeln!(out, "tclear t0").unwrap()
                 } else {
-                    let n = r.range(0, 12);
-                    let mut s = String::new();
-                    for _ in 0..n {
-                        write!(s, " {}", value64(r, &c)).unwrap();
-                    }
+                    let s = join_vals(&structured_seq(r, 12, P32, u64::MAX, &mut |r| value64(r, &c)));
                     writeln!(out, "tfrom_iter t0{}", s).unwrap()
                 }
             }
@@ -282,7 +274,10 @@ pub fn gen_case(r: &mut Rng, out: &mut String) {
         writeln!(out, "teq t8 t0").unwrap();
         writeln!(out, "expect true").unwrap();
         writeln!(out, "tdefault t7").unwrap();
-        let vs: Vec<String> = (0..r.range(0, 8)).map(|_| ((c.pkey(r) << 32) | r.below(70000)).to_string()).collect();
+        let vs: Vec<String> = structured_seq(r, 8, P32, u64::MAX, &mut |r| (c.pkey(r) << 32) | r.below(70000))
+            .iter()
+            .map(|x| x.to_string())
+            .collect();
         writeln!(out, "textend_ref t7 {}", vs.join(" ")).unwrap();
         writeln!(out, "tfrom_iter_ref t6 {}", vs.join(" ")).unwrap();
         writeln!(out, "teq t6 t7").unwrap();
